@@ -294,6 +294,8 @@ struct Running {
     prefix: PathBuf,
     last_idx: u64,
     cpu_at_idx: f64,
+    /// CPU seconds at which the worker was first seen minimising its current case
+    minimising_since: Option<f64>,
 }
 
 fn cpu_secs(pid: u32) -> Option<f64> {
@@ -534,6 +536,7 @@ pub fn run_chunks(prop: &dyn Prop, a: &RunArgs) -> Merged {
                 prefix,
                 last_idx: u64::MAX,
                 cpu_at_idx: 0.0,
+                minimising_since: None,
             });
         }
         if running.is_empty() {
@@ -568,9 +571,18 @@ pub fn run_chunks(prop: &dyn Prop, a: &RunArgs) -> Merged {
                     let pid = r.child.id();
                     if let (Some(idx), Some(cpu)) = (read_progress(&r.prefix), cpu_secs(pid)) {
                         if idx & MINIMISING != 0 {
+                            // shrinking re-executes the case many times and is not charged to the per-case
+                            // budget, but it is bounded too (a candidate can make the client spin)
+                            let since = *r.minimising_since.get_or_insert(cpu);
+                            if cpu - since > 6.0 * CPU_HANG_SECS {
+                                let _ = r.child.kill();
+                                let _ = r.child.wait();
+                                died = Some(("killed-cpu-watchdog-while-minimising".to_string(), true));
+                            }
                             r.last_idx = idx;
                             r.cpu_at_idx = cpu;
                         } else if idx != r.last_idx {
+                            r.minimising_since = None;
                             r.last_idx = idx;
                             r.cpu_at_idx = cpu;
                         } else if cpu - r.cpu_at_idx > CPU_HANG_SECS {
